@@ -845,6 +845,30 @@ def gen_handshake_h(rng, tier):
                     denc = rng.choice([32, ord('T'), ord('S'), ord('U'), ord('V'), ord('R')])
                     add(step, L.hs_case(step, qtype=qtype, uid=rng.randrange(16), lazy=rng.randrange(2), downenc=denc,
                                         seed=rng.choice([0, 1, -1, 0x7fffffff, -0x80000000, rng.randrange(1 << 31)]), arg=a, items=items))
+    # answers whose record type differs from the question type (dns_decode picks its branch by the question, the client's
+    # post-processing by the record): NUL-free data of every length up to the caller's buffer and beyond
+    for step in ('qtypetest', 'edns0', 'switch_codec', 'try_lazy', 'login', 'autoprobe', 'version'):
+        ch = ord(L.STEP_CHAR[step])
+        for qq in (L.T_NULL, L.T_PRIVATE, L.T_TXT):
+            for at in (L.T_MX, L.T_SRV, L.T_CNAME, L.T_TXT, L.T_A):
+                if at == qq:
+                    continue
+                for n in ((4096, 4095) if tier == 'quick' else (4096, 4095, 4097, 300, 5000)):
+                    body = bytes(rng.randrange(1, 256) for _ in range(n))
+                    if rng.randrange(2):
+                        body = b'Haaaaaaaa\0' + body[10:]
+                    if qq == L.T_TXT:
+                        body = L.txt_rdata(b'r' + body[1:n - n // 252 - 1])
+                    dg = L.reply(0, ch, qq, [L.rr(at, body)])
+                    add('type-confusion', L.hs_case(step, qtype=qq, uid=rng.randrange(16), arg={'switch_codec': 6, 'qtypetest': 1}.get(step, 0),
+                                                    items=[('@', dg), ('@', dg)]))
+    # a server may assign any user-id byte in its version reply; the later steps run with what the client stored
+    for step in ('autoprobe', 'set_fragsize', 'switch_codec', 'switch_downenc', 'try_lazy', 'rawudp', 'login'):
+        ch = ord(L.STEP_CHAR[step])
+        for uid in (128, 129, 200, 254, 255, 16, 127):
+            pl = rng.choice(step_payloads(rng, step))
+            add('wide-userid', L.hs_case(step, qtype=rng.choice([10, 16]), uid=uid, arg={'switch_codec': 6, 'set_fragsize': 700}.get(step, 0),
+                                         items=[('@', reply_for(rng, ch, pl, L.T_NULL, ord('R'))), 'T', ('@', reply_for(rng, ch, pl, L.T_NULL, ord('R')))]))
     # raw login step of handshake_raw_udp: address reply, then raw frames on the socket
     for _ in range(30 * reps):
         seed = rng.choice([0, 5, 0x7fffffff, -0x80000000, rng.randrange(1 << 31)])
@@ -889,6 +913,35 @@ def unmatched_pairs(rng, per_step):
             kw = dict(qtype=rng.choice([10, 65399, 16, 33, 15, 5, 1]) if step != 'qtype_auto' else 0, uid=rng.randrange(16), lazy=rng.randrange(2),
                       downenc=rng.choice([32, ord('T'), ord('S'), ord('R')]), seed=rng.randrange(1 << 31), arg=rng.choice(args))
             pairs.append((L.hs_case(step, items=noise + rest, **kw), L.hs_case(step, items=rest, **kw), what))
+    return pairs
+
+
+def stale_tail_pairs(rng):
+    """(case: an unfitting longer reply, then a fitting reply that is a proper prefix of one of the literals the step
+    compares with; the same case without the unfitting reply; description).  A step that compares beyond the length of the
+    reply reads what the earlier datagram left in its buffer."""
+    pairs = []
+    lits = {'switch_codec': [b'BADLEN', b'BADIP', b'BADCODEC'], 'switch_downenc': [b'BADLEN', b'BADIP', b'BADCODEC'],
+            'try_lazy': [b'BADLEN', b'BADIP', b'BADCODEC', b'Lazy'], 'set_fragsize': [b'BADFRAG', b'BADIP'],
+            'lazyoff': [b'Immediate'], 'autoprobe': [b'BADIP', b'\x03\x00', b'\x03\x00\x6b']}
+    for step, ls in lits.items():
+        ch = ord(L.STEP_CHAR[step])
+        for lit in ls:
+            for k in range(1, len(lit)):
+                for qt, de in ((L.T_NULL, ord('R')), (L.T_TXT, ord('R')), (L.T_TXT, ord('T'))):
+                    if qt == L.T_NULL and k < 2:
+                        continue
+                    stale = bytes(rng.choice(b'XYZ') for _ in range(k)) + lit[k:] + bytes(rng.choice([0, 1]))
+                    # '' keeps DNS id 0 (never the id of a query); '=' carries the id of the query, so it gets a foreign first character
+                    if rng.randrange(2):
+                        noise = [('', reply_for(rng, ch, stale, qt, de))]
+                    else:
+                        noise = [('=', reply_for(rng, rng.choice([c for c in b'xqPw' if c != ch]), stale, qt, de))]
+                    rest = [('@', reply_for(rng, ch, lit[:k], qt, de)), 'T', 'T', 'T', 'T', 'T', 'T']
+                    kw = dict(qtype=qt, uid=rng.randrange(16), lazy=1, downenc=rng.choice([32, ord('S')]), seed=5,
+                              arg={'switch_codec': 6, 'set_fragsize': 1200}.get(step, 0))
+                    pairs.append((L.hs_case(step, items=noise + rest, **kw), L.hs_case(step, items=rest, **kw),
+                                  '%r (the first %d bytes of %r) after an unfitting reply %r' % (lit[:k], k, lit, stale)))
     return pairs
 
 
@@ -1019,6 +1072,23 @@ def stream_handshake(rep, ctx, findings):
                              dict(kind='input', driver='hf', case=a, baseline_case=b, observed=ra[:300], expected=rb[:300], stream='handshake-step'))
                 break
         rep.cov['handshake_unmatched_reply_pairs'] = nun
+    # (1c) a fitting reply shorter than the literal a step compares it with, after an unfitting longer reply whose tail
+    #      completes the literal: the earlier datagram must not take part in the comparison
+    if 'hf' in ctx.exe:
+        spairs = stale_tail_pairs(rng)
+        flat = [c for pr in spairs for c in pr[:2]]
+        res, _ev = run_stream_merged(ctx.exe['hf'], flat, ctx.work, 'hst-plain', H_RE)
+        for k, (a, b, what) in enumerate(spairs):
+            ra, rb = res[2 * k], res[2 * k + 1]
+            if ra is None or rb is None or ra.startswith('BAIL') or rb.startswith('BAIL'):
+                continue
+            if re.sub(r' left=\d+', '', ra) != re.sub(r' left=\d+', '', rb):
+                findings.add('handshake:short-reply-compared-with-stale-tail',
+                             'the handshake step interprets the reply %s differently from the same reply alone (bytes of the earlier datagram '
+                             'take part in the comparison): after it %r, alone %r' % (what, ra[:160], rb[:160]),
+                             dict(kind='input', driver='hf', case=a, baseline_case=b, observed=ra[:300], expected=rb[:300], stream='handshake-step'))
+                break
+        rep.cov['handshake_stale_tail_pairs'] = len(spairs)
     # (2) stale bytes of an earlier reply parsed as part of the login reply
     if 'hf' in ctx.exe:
         for a, b in login_pairs(rng):
